@@ -1,6 +1,7 @@
 """C08 - time and async sources emit exactly what and when they promise."""
 import itertools
 from common import *
+import xcheck
 import timedcheck
 
 OPS = [("(interval 5)", 5), ("(interval 1)", 1), ("(interval_at 3 10)", 5), ("(interval_at 0 4)", 4), ("(interval_at 12 5)", 5),
@@ -62,7 +63,8 @@ def run(tier, seed, replay=None):
         cases = load_replay_case(replay)
     else:
         cases = prompt_cases() + timedcheck.op_cases(OPS, tier, rng, exh_len=5, finish=True, has_src=False, nrand=6000) + async_cases(tier, rng)
-    correspond(rep, "C08", cases, "C08_interval / C08_interval_at / C08_timer / C08_async_prefix / C08_async_complete")
+    res = correspond(rep, "C08", cases, "C08_interval / C08_interval_at / C08_timer / C08_async_prefix / C08_async_complete")
+    xcheck.cross_check(rep, "C08", cases, res, 40 if tier == "quick" else 400)
     c = rep.coverage
     hist = {}
     for _, _, t in cases:
